@@ -4,6 +4,7 @@ import Gocc.Model.Parse
 import Gocc.Model.Scan
 import Gocc.Spec.LexRef
 import Gocc.Spec.Pos
+import Gocc.Spec.Cfg
 /- Grammar-level ops of the model driver: decode a grammar line, run the generator models,
    print tables, scan and parse with them. -/
 namespace Gocc.Driver
@@ -305,6 +306,64 @@ def c08Oracle (args : List String) : Option String := do
         else if t == 1 && hi ≤ lo && o != src.length then s!"bad token {k}: EOF token before the end of input"
         else check (if hi > lo then hi else o) (k + 1) rest
   pure (check 0 0 ts)
+
+def cfgOfArt (a : Art) : Option (Cfg × Array RKind) :=
+  match a.lr with
+  | some (.ok r) => some (cfgOf a.g.syn r.tables.terminals r.tables.nts, r.tables.prodKind)
+  | _ => none
+
+/-- `earley id t0 t1 ...`: sentence? and the terminals that may follow (Earley oracle) -/
+def opEarley (a : Art) (args : List String) : Option String := do
+  let w ← nats args
+  match cfgOfArt a with
+  | some (G, _) =>
+    let r := earleyLast G w
+    pure s!"{if r.1 then "yes" else "no"} exp=[{showNats r.2}] productive={if allProductive G then 1 else 0}"
+  | none => pure "nosyntax"
+
+/-- `tree id failAt t0 t1 ...`: evaluate the harness actions over a parse tree found without LR tables -/
+def opTree (a : Art) (args : List String) : Option String := do
+  let v ← nats args
+  match v, cfgOfArt a with
+  | failAt :: w, some (G, kinds) =>
+    match spanTree G w with
+    | none => pure "notree"
+    | some t =>
+      match evalTree kinds failAt t {} with
+      | .ok (r, st) => pure s!"ok {r.show} | log=[{showNats st.log.reverse}]"
+      | .error (id, st) => pure s!"acterr id={id} | log=[{showNats st.log.reverse}]"
+  | _, _ => pure "nosyntax"
+
+/-- `c05oracle id`: the resolution rule stated outright — among the actions the items of a state
+    propose for a terminal: the shift if there is one, otherwise the reduce with the smallest
+    production index — compared with every entry of the model's (= gocc's) table. -/
+def opC05 (a : Art) : String :=
+  match a.lr with
+  | some (.ok r) =>
+    let C := r.ctx
+    let T := r.tables
+    let res := (List.range T.nStates).foldl (fun (acc : Nat × Nat × List String) s =>
+      let st := r.states[s]!
+      (List.range T.terminals.length).foldl (fun (acc : Nat × Nat × List String) t =>
+        let sym := T.terminals[t]!
+        let next := (st.next sym).getD 0
+        let acts := (st.items.filterMap fun i => itemAction C i sym next).eraseDups
+        let shifts := acts.filter fun x => match x with | .shift _ => true | _ => false
+        let reduces := acts.filterMap fun x => match x with | .reduce p => some p | _ => none
+        let expected : Option Act :=
+          if acts.contains .accept then some .accept
+          else match shifts with
+            | sh :: _ => some sh
+            | [] => (reduces.foldl (fun (m : Option Nat) p => match m with
+                | none => some p
+                | some q => some (min p q)) none).map Act.reduce
+        let entry := (T.action[s]!)[t]!
+        let competing := if acts.length > 1 then 1 else 0
+        if entry == expected then (acc.1 + 1, acc.2.1 + competing, acc.2.2)
+        else (acc.1 + 1, acc.2.1 + competing, acc.2.2 ++ [s!"S{s}/{sym}"])) acc) (0, 0, [])
+    if res.2.2.isEmpty then s!"ok entries={res.1} competing={res.2.1}" else s!"bad {" ".intercalate res.2.2}"
+  | some (.error _) => "panic"
+  | none => "nosyntax"
 
 def opTerminals (a : Art) : String :=
   " ".intercalate (a.terminals.map fun s => "x" ++ String.join (s.toUTF8.toList.map fun b =>
